@@ -341,6 +341,10 @@ def gen_case(ctx: ShardCtx, streams: dict) -> dict:
     rng = ctx.rng
     stream = rng.choice(list(streams))
     manifest, mode = rng.choice(VOD_TEMPLATES)
+    if stream == 'sy9':
+        # Representations numbered from different start numbers: only a template per Representation
+        # (manifest_ef.mpd) or byte ranges (on-demand profile) can describe them
+        manifest, mode = rng.choice([('manifest_ef.mpd', 'vod'), ('hand_made.mpd', 'odvod')])
     p: dict[str, str] = {}
     if manifest in TIMELINE_TEMPLATES and rng.random() < 0.5:
         p['timeline'] = '1'
